@@ -85,6 +85,8 @@ class Proc:
         self.outcomes = []
         self.buf = b""
         self.faulted = set()
+        self.decoy_done = False
+        self.fixed_cache_arg = None
 
     def live(self):
         return self.state in ("idle", "pending", "new")
@@ -545,6 +547,8 @@ class Sim:
     def cache_arg(self, p):
         """How this process spells the (one) cache directory: absolute, through a symbolic link,
         or relative to its working directory."""
+        if p.fixed_cache_arg:
+            return p.fixed_cache_arg
         sp = (self.scn.get("cache_spelling") or {}).get(str(p.name))
         if sp == "symlink":
             link = os.path.join(self.tmp, f"cachelink-{p.idx}")
@@ -679,7 +683,41 @@ class Sim:
                                  f"timeout={to}, own latencies {cur['own_dur']:.3f}s")
 
     # ------------------------------------------------------------------ requests
+    def decoy_phase(self, p):
+        """Before its first simulated request the process makes one request, outside the
+        simulation, with the spelling of the cache directory it will use later - while that
+        spelling still denotes a private decoy directory (a symbolic link that is re-pointed
+        afterwards, or a relative path followed by a chdir).  Whatever the process remembers about
+        'its' cache directory must not survive the change of meaning."""
+        how = (self.scn.get("decoy_first") or {}).get(str(p.name))
+        if not how or p.decoy_done:
+            return
+        p.decoy_done = True
+        decoy_root = os.path.join(self.tmp, f"decoy-{p.idx}")
+        os.makedirs(decoy_root, exist_ok=True)
+        req = p.requests[0]["req"]
+        if how == "symlink":
+            link = os.path.join(self.tmp, f"relink-{p.idx}")
+            os.symlink(os.path.join(decoy_root, "cache"), link)
+            self.send(p, {"cmd": "decoy", "req": req, "cache_arg": link})
+        else:  # chdir: the same relative spelling, another working directory
+            rel = os.path.basename(self.cache)
+            self.send(p, {"cmd": "decoy", "req": req, "cache_arg": rel, "chdir_before": decoy_root,
+                          "chdir_after": os.path.dirname(self.cache)})
+        msg = self.recv(p)
+        if not msg or msg.get("ev") != "decoy-done":
+            raise core.HarnessError(f"jitsim decoy phase of process {p.idx} failed: {msg}")
+        self.log.add(round(self.now, 6), p.idx, "decoy", how, msg.get("result"))
+        self.bump("probe_decoy_phase_" + how)
+        if how == "symlink":
+            os.unlink(link)
+            os.symlink(self.cache, link)
+            p.fixed_cache_arg = link
+        else:
+            p.fixed_cache_arg = os.path.basename(self.cache)
+
     def start_request(self, p):
+        self.decoy_phase(p)
         p.req_index += 1
         rq = p.requests[p.req_index]
         g = self.golden[rq["req"]]
